@@ -111,7 +111,20 @@ where
                 Ok(Err(_)) => Obs::Err,
                 Err(p) => return Err(format!("elem #{} read {:?} variant {} panicked: {}", i, code, rtab, p)),
             },
-            Elem::Raw { n, .. } => match how.get(i).copied().unwrap_or(0) % 3 {
+            Elem::Raw { n, .. } => match how.get(i).copied().unwrap_or(0) % 4 {
+                3 => {
+                    // bulk copy into a destination that fills up part-way: a fixed slice of one
+                    // 64-bit word; the copy asks for three words more than the element
+                    let store: Vec<u64> = vec![0; 1];
+                    let sink = AnyWordWrite::<u64>::new(WrInner::Slice(MemWordWriterSlice::new(SharedVec(Box::leak(Box::new(store)) as *mut Vec<u64>))));
+                    let mut w = ManuallyDrop::new(BufBitWriter::<E, _>::new(sink));
+                    let res = guard(|| r.copy_to(&mut *w, *n as u64 + 192).is_ok());
+                    match res {
+                        Ok(true) => Obs::Unit,
+                        Ok(false) => Obs::Err,
+                        Err(p) => return Err(format!("elem #{} failing copy_to panicked: {}", i, p)),
+                    }
+                }
                 0 => match guard(|| r.read_bits(*n)) {
                     Ok(Ok(v)) => Obs::Val(v),
                     Ok(Err(_)) => Obs::Err,
@@ -230,7 +243,7 @@ fn compare_reader(
         let what = match &s.elems[i] {
             Elem::Code { code, rtab, .. } => format!("read_{}:v{}", code.name(), rtab % code.n_rtabs()),
             Elem::Raw { .. } => match &s.side {
-                Side14::Reader { how, .. } => ["read_bits", "skip_bits", "copy_to"][(how.get(i).copied().unwrap_or(0) % 3) as usize].to_string(),
+                Side14::Reader { how, .. } => ["read_bits", "skip_bits", "copy_to", "copy_to_failing_destination"][(how.get(i).copied().unwrap_or(0) % 4) as usize].to_string(),
                 _ => "raw".into(),
             },
         };
@@ -251,6 +264,32 @@ fn compare_reader(
             Obs::Unit => 1,
             Obs::Err => u64::MAX,
         });
+        if what == "copy_to_failing_destination" {
+            // after a copy that failed part-way positions are unspecified, so bare and wrapped
+            // are not compared; but the counter must still equal the bits really consumed
+            // from the underlying stream, which the wrapper's own inner position tells
+            ctx.probe("c14.failing_copy_to");
+            if bare[i].obs != Obs::Err || wrapped[i].obs != Obs::Err {
+                return ctx.fail(
+                    "C14.reader_not_transparent",
+                    format!("elem #{}: a copy into a destination that fills up returned {:?} (bare) / {:?} (wrapped)", i, bare[i].obs, wrapped[i].obs),
+                );
+            }
+            if s.wrap == Wrap14::Count && wpos[i] != u64::MAX {
+                let consumed = wpos[i] - pre;
+                if counts[i] as u64 != consumed {
+                    return ctx.fail(
+                        "C14.bits_read",
+                        format!(
+                            "elem #{} (copy_to failing part-way): bits_read = {} but {} bits have been consumed from the underlying stream since the wrapper was created",
+                            i, counts[i], consumed
+                        ),
+                    );
+                }
+            }
+            ctx.progressed = true;
+            return;
+        }
         if bare[i].obs != wrapped[i].obs || bare[i].peek != wrapped[i].peek || bare[i].copied != wrapped[i].copied {
             return ctx.fail(
                 "C14.reader_not_transparent",
@@ -312,13 +351,31 @@ where
 {
     let mut out = Vec::new();
     for (i, el) in elems.iter().enumerate() {
-        let h = how.get(i).copied().unwrap_or(0) % 3;
+        let h = how.get(i).copied().unwrap_or(0) % 4;
         let ret = match el {
             Elem::Code { code, wtab, v, .. } => match guard(|| write_code_on(w, *code, *wtab, *v)) {
                 Ok(Ok(k)) => Obs::Val(k as u64),
                 Ok(Err(_)) => Obs::Err,
                 Err(p) => return Err(format!("elem #{} write {:?} variant {} value {} panicked: {}", i, code, wtab, v, p)),
             },
+            Elem::Raw { v, n } if h == 3 => {
+                // copy_from a strict source that ends part-way: it holds the element plus 256
+                // more bits, the copy asks for 200 bits beyond that
+                let mut m = BitModel::new();
+                m.push_bits(e, *v, *n);
+                for k in 0..4u64 {
+                    m.push_bits(e, 0x9E37_79B9_7F4A_7C15u64.rotate_left(k as u32 * 7), 64);
+                }
+                let avail = m.len() / 64 * 64;
+                m.bits.truncate(avail);
+                let words: Vec<u64> = bytes_to_words::<u64>(&m.to_bytes(e));
+                let mut rd = BufBitReader::<E, _>::new(AnyWordRead::new(RdInner::MemStrict(MemWordReader::new_strict(words))));
+                match guard(|| w.copy_from(&mut rd, avail as u64 + 200)) {
+                    Ok(Ok(())) => Obs::Unit,
+                    Ok(Err(_)) => Obs::Err,
+                    Err(p) => return Err(format!("elem #{} failing copy_from panicked: {}", i, p)),
+                }
+            }
             Elem::Raw { v, n } => {
                 if h == 2 {
                     // copy_from a scratch reader holding exactly these bits
@@ -342,6 +399,16 @@ where
             }
         };
         after(w, i, false);
+        if h == 3 && matches!(el, Elem::Raw { .. }) {
+            let f = match guard(|| w.flush()) {
+                Ok(Ok(k)) => Obs::Val(k as u64),
+                Ok(Err(_)) => Obs::Err,
+                Err(p) => return Err(format!("elem #{} flush after a failed copy panicked: {}", i, p)),
+            };
+            after(w, i, true);
+            out.push(WStep { ret, flush_ret: Some(f) });
+            break;
+        }
         let flush_ret = if h == 1 {
             let f = match guard(|| w.flush()) {
                 Ok(Ok(k)) => Obs::Val(k as u64),
@@ -385,11 +452,12 @@ macro_rules! writer_case {
         for (v, n) in $pre {
             let _ = inner.write_bits(*v, *n);
         }
-        let mut counts: Vec<(usize, usize, bool)> = Vec::new();
+        let mut counts: Vec<(usize, usize, bool, usize)> = Vec::new();
         let (wrapped_steps, wrapped_words) = match $s.wrap {
             Wrap14::Count => {
                 let mut wr = ManuallyDrop::new(CountBitWriter::<$E, _>::new(inner));
-                let r = run_w::<$E, _>($e, &mut *wr, &$s.elems, $how, &mut |w, i, f| counts.push((i, w.bits_written, f)));
+                let wl2 = w_log.clone();
+                let r = run_w::<$E, _>($e, &mut *wr, &$s.elems, $how, &mut |w, i, f| counts.push((i, w.bits_written, f, wl2.borrow().words.len())));
                 let fl = guard(|| wr.flush());
                 let words = w_log.borrow().words.clone();
                 if matches!(fl, Ok(Ok(_))) {
@@ -425,7 +493,7 @@ fn compare_writer(
     wrapped: &[WStep],
     bare_words: &[u128],
     wrapped_words: &[u128],
-    counts: &[(usize, usize, bool)],
+    counts: &[(usize, usize, bool, usize)],
 ) {
     let wbits = word.bits();
     // exact number of bits each element appends, measured from the real output
@@ -450,10 +518,15 @@ fn compare_writer(
     let mut flushed_once = false;
     let mut ci = 0usize;
     for i in 0..n {
-        let h = how.get(i).copied().unwrap_or(0) % 3;
+        let h = how.get(i).copied().unwrap_or(0) % 4;
+        let failing = h == 3 && matches!(s.elems[i], Elem::Raw { .. });
         let what = match &s.elems[i] {
             Elem::Code { code, wtab, .. } => format!("write_{}:v{}", code.name(), wtab % code.n_wtabs()),
-            Elem::Raw { .. } => if h == 2 { "copy_from".to_string() } else { "write_bits".to_string() },
+            Elem::Raw { .. } => match h {
+                2 => "copy_from".to_string(),
+                3 => "copy_from_failing_source".to_string(),
+                _ => "write_bits".to_string(),
+            },
         };
         ctx.step(vec![
             format!("e={:?}", s.e),
@@ -462,6 +535,40 @@ fn compare_writer(
         ]);
         ctx.ops += 1;
         ctx.sig(&[141, s.e as u64, s.wrap as u64, word as u64, crate::fw_hash(&what), h as u64]);
+        if failing {
+            // a bulk copy whose source ends part-way: the state of the streams afterwards is
+            // unspecified, so bare and wrapped are not compared; the counter must still equal
+            // the bits that really reached the underlying stream, which the number of words
+            // delivered after the flush brackets to within one word
+            ctx.probe("c14.failing_copy_from");
+            if bare[i].ret != Obs::Err || wrapped[i].ret != Obs::Err {
+                return ctx.fail(
+                    "C14.writer_not_transparent",
+                    format!("elem #{}: a copy from a source that ends part-way returned {:?} (bare) / {:?} (wrapped)", i, bare[i].ret, wrapped[i].ret),
+                );
+            }
+            if s.wrap == Wrap14::Count {
+                let (_, c, _, _) = counts[ci];
+                let (_, _c2, _, words_after_flush) = counts[ci + 1];
+                let total = words_after_flush * wbits; // stream bits incl. padding, after the flush
+                let hi = total.saturating_sub(stream_bits); // at most this many bits were appended by the copy
+                let lo = (total + 1).saturating_sub(stream_bits + wbits); // and at least this many
+                let through = c as i64 - data_bits as i64;
+                let through_pad = through - padding as i64;
+                let ok = |x: i64| x >= lo as i64 && x <= hi as i64;
+                if !(ok(through) || (flushed_once && ok(through_pad))) {
+                    return ctx.fail(
+                        "C14.bits_written",
+                        format!(
+                            "elem #{} (copy_from failing part-way): bits_written grew by {} but between {} and {} bits of the copy reached the underlying stream",
+                            i, through, lo, hi
+                        ),
+                    );
+                }
+            }
+            ctx.progressed = true;
+            return;
+        }
         if bare[i].ret != wrapped[i].ret || bare[i].flush_ret != wrapped[i].flush_ret {
             return ctx.fail(
                 "C14.writer_not_transparent",
@@ -476,7 +583,7 @@ fn compare_writer(
         stream_bits += appended[i];
         if s.wrap == Wrap14::Count {
             // after the op itself
-            let (_, c, _) = counts[ci];
+            let (_, c, _, _) = counts[ci];
             ci += 1;
             ctx.ev(c as u64);
             let ok = c == data_bits || (flushed_once && c == data_bits + padding);
@@ -498,7 +605,7 @@ fn compare_writer(
                 padding += pad;
                 stream_bits += pad;
                 flushed_once = true;
-                let (_, c2, _) = counts[ci];
+                let (_, c2, _, _) = counts[ci];
                 ci += 1;
                 ctx.ev(c2 as u64);
                 ctx.probe("c14.counter_checked_after_flush");
@@ -549,7 +656,7 @@ impl Family for C14 {
                 side: Side14::Reader {
                     kind,
                     pre_bits: rng.usize_range(0, 2 * kind.word_bits() + 1),
-                    how: (0..m).map(|_| rng.below(3) as u8).collect(),
+                    how: (0..m).map(|_| if rng.chance(1, 12) { 3 } else { rng.below(3) as u8 }).collect(),
                     peeks: (0..m)
                         .map(|_| if rng.chance(1, 4) { rng.usize_range(1, kind.max_peek()) } else { 0 })
                         .collect(),
@@ -571,7 +678,7 @@ impl Family for C14 {
                 side: Side14::Writer {
                     word,
                     pre,
-                    how: (0..m).map(|_| *rng.pick(&[0u8, 0, 0, 1, 2])).collect(),
+                    how: (0..m).map(|_| if rng.chance(1, 12) { 3 } else { *rng.pick(&[0u8, 0, 0, 1, 2]) }).collect(),
                 },
             }
         }
@@ -760,7 +867,12 @@ impl Family for C14 {
     }
 
     fn required_probes(_t: Tier) -> Vec<&'static str> {
-        vec!["c14.read_through_peek_and_skip_after_peek", "c14.counter_checked_after_flush"]
+        vec![
+            "c14.read_through_peek_and_skip_after_peek",
+            "c14.counter_checked_after_flush",
+            "c14.failing_copy_to",
+            "c14.failing_copy_from",
+        ]
     }
 
     fn runs(t: Tier) -> u64 {
